@@ -57,13 +57,9 @@ def _oracle(src, ast, extra, parsed):
     def fails(s, a):
         p = common.impl_parse(s, 0, a.skip)
         return tree_mismatch(s, a, p) is not None and ((p[1] is None) == (parsed[1] is None))
-    small, sast = G.shrink(ast, fails, budget=ctx_budget())
+    small, sast = G.shrink(ast, fails, budget=300) if L.may_shrink() else (src, ast)
     return [(key, tree_mismatch(small, sast) or what,
-             {'input': small, 'skip': list(sast.skip), 'original': src[:400], 'expected': G.expected_canon(sast)[:400]})]
-
-
-def ctx_budget():
-    return 300
+             {'input': small, 'skip': list(sast.skip), 'original': src[:400], 'expected': G.expected_canon(sast)[:6000]})]
 
 
 def _jobs(ctx, tag, total, model):
@@ -135,5 +131,5 @@ def replay(ctx, payload):
         return False, 'replay %r skip=%r -> %s' % (s, skip, line)
     got = G.normalise(common.canon_root(soup))
     exp = f.get('expected')
-    ok = exp is None or got == exp or (len(exp) >= 400 and got.startswith(exp))
+    ok = exp is None or got == exp or (len(exp) >= 6000 and got.startswith(exp))
     return ok, 'replay %r skip=%r -> %s (expected %s)' % (s, skip, got[:300], (exp or '?')[:300])
